@@ -15,14 +15,14 @@ from rbql import rbql_csv  # noqa: E402
 PROP = 'C10'
 LEVEL = 'exploration'
 RULE = ('Exhaustive: every one- and two-field single-record table whose fields are strings of length <= 4 (quick) / <= 5 (thorough) (two-field tables: each field one shorter) over '
-        '{quote, delimiter characters, space, a} (+ LF for quoted_rfc) for delimiters , ; TAB | space :: ### ab <> and policies quoted / quoted_rfc. '
+        '{quote, delimiter characters, space, a} (+ LF for quoted_rfc) for delimiters , ; TAB | space :: ### ab <> and policies quoted / quoted_rfc; one- to three-field records over {a, delimiter characters} for policy simple with the multi-character delimiters :: ### ab <> ", " := . '
         'Hypothesis: tables of 0-5 records x 1-4 fields over {quote, delimiter chars, space, tab, CR, LF, ordinary, non-ASCII, all 256 latin-1 code points} '
         'x 5 policies x 12 delimiters x line separators {LF, CRLF, CR} x encodings {None, utf-8, latin-1}, plus query_csv("select *") file to file. '
         'Oracle: representable := the reference writer/reader pair round-trips the table; for representable tables real writer -> real reader == table '
         'with no warnings (ragged: exactly the field-count warning), real writer -> reference reader and reference writer (minimal and always-quoting) -> '
         'real reader == table; quoted_rfc normalises CR/CRLF in fields to LF. For simple/whitespace output with the delimiter inside a field, or any None: '
         'the corresponding warning must be present. Non-trivial = a field containing a quote, a delimiter character, a leading/trailing space or a line break.')
-ASSUMPTIONS = ['multi-character delimiters contain neither a space nor a double quote', 'the delimiter is never the double quote; whitespace policy uses the space delimiter']
+ASSUMPTIONS = ['multi-character delimiters of the quoted policies contain neither a space nor a double quote', 'the delimiter is never the double quote; whitespace policy uses the space delimiter']
 
 SINGLE = [',', ';', '\t', '|', ' ']
 MULTI = ['::', '###', 'ab', '<>']
@@ -153,6 +153,24 @@ def shard_enum(shard, nshards, tier, seed, scratch):
                     if key not in seen:
                         seen.add(key)
                         failures.append({'leg': 'enum', 'clause': v.clause, 'detail': v.detail, 'case': {'table': table, 'delim': dlm, 'policy': policy, 'line_sep': '\n', 'encoding': None}})
+    # simple policy with multi-character delimiters: only the whole delimiter inside a field is lossy; fields made of
+    # delimiter characters (a field ending with the head of the delimiter next to one starting with its tail) are fine
+    for dlm in MULTI + [', ', ':=']:
+        alpha = ['a'] + sorted(set(dlm))
+        strings = [''.join(t) for n in range(0, maxlen) for t in itertools.product(alpha, repeat=n)]
+        short = [x for x in strings if len(x) <= 2]
+        tables = [[[x]] for x in strings] + [[[x, t]] for x in strings for t in strings if len(x) + len(t) <= maxlen + 1] + [[[x, t, u]] for x in short for t in short for u in short]
+        for table in tables:
+            counter += 1
+            if counter % nshards != shard:
+                continue
+            try:
+                check_table(table, dlm, 'simple', '\n', None, stats, distinct=True)
+            except Violation as v:
+                key = ('simple', True, v.clause)
+                if key not in seen:
+                    seen.add(key)
+                    failures.append({'leg': 'enum', 'clause': v.clause, 'detail': v.detail, 'case': {'table': table, 'delim': dlm, 'policy': 'simple', 'line_sep': '\n', 'encoding': None}})
     if shard == 0:
         # latin-1 preserves every byte value: all 256 code points, as single-character fields and in one run per record
         allcp = [chr(i) for i in range(256)]
